@@ -302,8 +302,9 @@ class ReqSpec:
 
 
 def gen_request(sim, last=False, method=None, target=None, oddities=True, extra_headers=(), allow_10=True,
-                allow_expect=True, body=None, framing=None, content_types=None, long_ext=False):
-    """One well-formed request; the ground truth is known by construction."""
+                allow_expect=True, body=None, framing=None, content_types=None, long_ext=False, trailers=None):
+    """One well-formed request; the ground truth is known by construction.
+    `trailers` (optional): candidate trailer sections (tuples of field lines) drawn instead of TRAILERS."""
     r = ReqSpec()
     r.kind = "ok"
     r.method = method if method is not None else sim.draw_choice(METHODS, "method")
@@ -360,7 +361,7 @@ def gen_request(sim, last=False, method=None, target=None, oddities=True, extra_
                 # "under" = longest lines the decoder documents as acceptable, "straddle" = either side of the limit
                 szlen = 8 if long_ext == "straddle" else 15
                 exts[0] = b";" + b"e" * (1024 - szlen + sim.draw_int(0, 8, "extlen"))
-            payload = http1.chunk_encode(pieces, [sim.draw_choice(SIZEFMT, "szf") for _ in pieces], exts, sim.draw_choice(TRAILERS, "trl"))
+            payload = http1.chunk_encode(pieces, [sim.draw_choice(SIZEFMT, "szf") for _ in pieces], exts, sim.draw_choice(TRAILERS if trailers is None else trailers, "trl"))
         else:
             payload = http1.chunk_encode(pieces)
     w = bytearray()
